@@ -16,10 +16,8 @@ RULE = ("three streams. (1) nn: compute_nn_distances_within_time_points(x, times
 PARTIAL = ["the KD/Ball tree is a contract (exact Euclidean nearest other point); the model uses brute force and the harness "
            "compares with tolerance", "float64 rounding of sqrt/pow is modelled away: values compared at 1e-9 relative",
            "validate_nn_distances (sanitising zero distances of duplicate cells) is outside the model: generated cells are distinct",
-           "wrong-length NumPy-array/tuple targets: too long is accepted, too short raises IndexError (finding, see known_findings.json); "
-           "theorem wrong_length_refused_partial covers list / JAX-array targets, the NumPy/tuple case is wrong_length_counterexample(_run)",
-           "n_obs for a dict with keys that are not time points of the data is sum(all values)/#time points (finding); "
-           "n_obs_eq_dict_partial holds when the dict has one entry per time point (n_obs_eq_dict_counterexample otherwise)"]
+           "the model mirrors /repo AFTER the two C14 repairs (every sized target length-checked, NumPy arrays / tuples accepted "
+           "like lists, dict n_obs averaged over the time points present); on a tree without them the old witnesses are reported"]
 ASSUMPTIONS = ["sklearn KDTree/BallTree(metric='euclidean').query(k=2) returns the exact Euclidean distance to the nearest other row",
                "jnp.unique returns the sorted distinct values; boolean-mask indexing keeps row order"]
 TRUSTED_EXTRA = ["sklearn.neighbors.KDTree / BallTree exact nearest neighbour", "jax.numpy.unique, boolean mask gather/scatter"]
@@ -297,8 +295,6 @@ def expected_nobs(norm, T):
         if any(t not in dd for t in uniq):
             return ("unspecified",)
         return ("ok", sum(dd[t] for t in uniq) / len(uniq))
-    if k in ("np", "tuple"):
-        return ("unspecified",)         # refused late with ValueError("Unrecognized type"): a refusal, not a finding
     if len(v) != len(uniq):
         return ("unspecified",)
     return ("ok", sum(v) / len(v))
@@ -567,7 +563,8 @@ def run(ctx, res):
     t0 = time.time()
     t_end = t0 + budget
     mellon()
-    # ---- (0) the witnesses of the Lean counterexample theorems, replayed on the implementation
+    # ---- (0) regression: the witnesses of the former counterexample theorems (now `wrong_length_witnesses_refused`,
+    #          `n_obs_dict_witness`) must be refused / give the average over the time points present
     Xw, Tw = np.array([[0.0], [1.0]]), np.array([0.0, 0.0])
     for kind in ("tuple", "np"):
         run_case(ctx, res, {"op": "nn", "X": Xw, "T": Tw, "how": "column", "d": ddesc("int", [1.0]),
@@ -639,8 +636,8 @@ def run(ctx, res):
             if j % 3 == 0:
                 q = dict(p)
                 q["fit"] = False
-                if kind in ("list", "jax"):
-                    q["norm"] = gen_norm(rng, T, kind, bad="long")
+                if kind in ("list", "jax", "np", "tuple"):
+                    q["norm"] = gen_norm(rng, T, kind, bad=["long", "short"][int(rng.integers(2))])
                 elif kind == "dict":
                     q["norm"] = gen_norm(rng, T, "dict", bad="missing")
                 else:
@@ -678,12 +675,13 @@ CLAIM = {
             "point and is <= the distance to every other such cell (over R, brute force = KD-tree contract), in the original "
             "order; a time point with a single cell is refused; with normalisation the output is (n_t/N_t)^(1/d_i) x that "
             "distance with N_t = n/#times (True), the entry at the rank of t among the sorted unique times (list/array), the "
-            "dictionary entry (dict); missing keys and wrong-length lists / JAX arrays are refused with ValueError; "
+            "dictionary entry (dict); missing keys and wrong-length targets of every sized form (list, tuple, JAX / NumPy array) "
+            "are refused with ValueError and no call ends in IndexError; "
             "mle(out) = mle(nn) + log(N_t/n_t) (direction and exponent); n_obs per form; ls from un-normalised distances; "
             "explicit nn_distances untouched. Tied to /repo by running compute_nn_distances_within_time_points, "
             "compute_average_cell_count and fitted TimeSensitiveDensityEstimators against the model driver and a numpy oracle.",
-    "note": "Two recorded findings (known_findings.json): NumPy-array/tuple targets are not length-checked (too long accepted, too "
-            "short IndexError) and n_obs of a dict with extra keys is sum(all)/#time points. KD/Ball tree exactness is a contract; "
+    "note": "Mirrors /repo after the two C14 `fix:` commits (length check of every sized target; dict n_obs over the time points "
+            "present); the former counterexample witnesses are regression cases. KD/Ball tree exactness is a contract; "
             "float rounding modelled away (1e-9 relative tolerance, observed ~1e-15).",
     "technique": "Lean 4 proof (list induction for unique/scatter/min, real analysis for the MLE scaling law) + differential "
                  "correspondence on the function, on compute_average_cell_count and on fitted estimators + numpy brute-force oracle",
